@@ -580,6 +580,14 @@ namespace Pistache::Http
             buffer.reset();
             cursor.reset();
 
+            // a message abandoned in the middle of its body must not leave its
+            // body progress behind for the next message
+            for (auto& step : allSteps)
+            {
+                if (step)
+                    step->reset();
+            }
+
             currentStep = 0;
         }
 
